@@ -1,5 +1,6 @@
 import CryoCat.Model.C05
 import CryoCat.Lemmas.C05
+import CryoCat.Lemmas.C05_Euler
 /-! C05 — pose bookkeeping: property theorems (only theorems and non-vacuity examples).
 
 `S : Svc α` bundles the numeric services the code takes from scipy / decimal (cos/sin in degrees,
@@ -47,6 +48,155 @@ theorem shift_targets : Gen.C05.shiftTargets = [("shift_x", 0), ("shift_y", 1), 
 theorem flip_source_form :
     Gen.C05.flipOffset = 1 ∧ Gen.C05.flipNegatesTheta = true ∧ Gen.C05.flipMirrorBranches = 2 ∧
     Gen.C05.flipShiftBranches = 2 := by decide
+
+/-- names and default values of the parameters of every function the adapter calls: `shift_positions(shift, inplace=True)`,
+`flip_handedness(tomo_dimensions=None)`, `get_coordinates/get_angles/get_rotations(tomo_number=None)`,
+`dimensions_load(input_dims, tomo_idx=None)` — the correspondence run omits these keywords in a share of its calls -/
+theorem signatures_documented : Gen.C05.signatures =
+    [("Motl.get_coordinates", "tomo_number", "None"), ("Motl.get_angles", "tomo_number", "None"),
+     ("Motl.get_rotations", "tomo_number", "None"), ("Motl.update_coordinates", "", ""),
+     ("Motl.scale_coordinates", "scaling_factor", ""), ("Motl.shift_positions", "shift", ""),
+     ("Motl.shift_positions", "inplace", "True"), ("Motl.apply_rotation", "rotation", ""),
+     ("Motl.flip_handedness", "tomo_dimensions", "None"), ("dimensions_load", "input_dims", ""),
+     ("dimensions_load", "tomo_idx", "None")] := by decide
+
+/-! whole bodies of the anchored functions, alpha-normalised: an added early return, a hoisted statement, a swapped
+branch changes these; renaming a local variable does not -/
+/-- `get_coordinates`: x y z values + shift values, for all particles or those of one tomogram (local names normalised to v0, v1, …) -/
+theorem get_coordinates_body_documented : Gen.C05.getCoordinatesBody = [
+  "def get_coordinates(self, v0=None):",
+  "    if v0 is None:",
+  "        v1 = self.df.loc[:, ['x', 'y', 'z']].values + self.df.loc[:, ['shift_x', 'shift_y', 'shift_z']].values",
+  "    else:",
+  "        v1 = self.df.loc[self.df.loc[:, 'tomo_id'] == v0, ['x', 'y', 'z']].values + self.df.loc[self.df.loc[:, 'tomo_id'] == v0, ['shift_x', 'shift_y', 'shift_z']].values",
+  "    return v1"] := rfl
+
+/-- `get_angles`: the phi, theta, psi columns, for all particles or those of one tomogram (local names normalised to v0, v1, …) -/
+theorem get_angles_body_documented : Gen.C05.getAnglesBody = [
+  "def get_angles(self, v0=None):",
+  "    if v0 is None:",
+  "        v1 = self.df.loc[:, ['phi', 'theta', 'psi']].values",
+  "    else:",
+  "        v1 = self.df.loc[self.df.loc[:, 'tomo_id'] == v0, ['phi', 'theta', 'psi']].values",
+  "    return np.atleast_2d(v1)"] := rfl
+
+/-- `get_rotations`: from_euler("zxz", get_angles, degrees) (empty list for an empty selection) (local names normalised to v0, v1, …) -/
+theorem get_rotations_body_documented : Gen.C05.getRotationsBody = [
+  "def get_rotations(self, v0=None):",
+  "    v1 = self.get_angles(v0)",
+  "    if v1.shape[0] == 0:",
+  "        return []",
+  "    v2 = rot.from_euler('zxz', v1, degrees=True)",
+  "    return v2"] := rfl
+
+/-- `update_coordinates`: the whole body (no early return, no extra statement) (local names normalised to v0, v1, …) -/
+theorem update_body_documented : Gen.C05.updateBody = [
+  "def update_coordinates(self):",
+  "    def v0(v1):",
+  "        v2 = v1.copy()",
+  "        v3 = v1['x'] + v1['shift_x']",
+  "        v4 = v1['y'] + v1['shift_y']",
+  "        v5 = v1['z'] + v1['shift_z']",
+  "        v2['x'] = float(decimal.Decimal(v3).to_integral_value(rounding=decimal.ROUND_HALF_UP))",
+  "        v2['y'] = float(decimal.Decimal(v4).to_integral_value(rounding=decimal.ROUND_HALF_UP))",
+  "        v2['z'] = float(decimal.Decimal(v5).to_integral_value(rounding=decimal.ROUND_HALF_UP))",
+  "        v2['shift_x'] = v3 - v2['x']",
+  "        v2['shift_y'] = v4 - v2['y']",
+  "        v2['shift_z'] = v5 - v2['z']",
+  "        return v2",
+  "    self.df = self.df.apply(v0, axis=1)",
+  "    warnings.warn('The coordinates for subtomogram extraction were changed, new extraction is necessary!')"] := rfl
+
+/-- `scale_coordinates`: the whole body (local names normalised to v0, v1, …) -/
+theorem scale_body_documented : Gen.C05.scaleBody = [
+  "def scale_coordinates(self, v0):",
+  "    for v1 in ('x', 'y', 'z'):",
+  "        self.df[v1] = self.df[v1] * v0",
+  "        v2 = 'shift_' + v1",
+  "        self.df[v2] = self.df[v2] * v0"] := rfl
+
+/-- `shift_positions`: the whole body — row function, both entry points, index reset (local names normalised to v0, v1, …) -/
+theorem shift_body_documented : Gen.C05.shiftBody = [
+  "def shift_positions(self, v1, v2=True):",
+  "    def v0(v3):",
+  "        v4 = np.array(v1)",
+  "        v5 = np.array([[v3['phi'], v3['theta'], v3['psi']]])",
+  "        v6 = rot.from_euler(seq='zxz', angles=v5, degrees=True)",
+  "        v7 = v6.apply(v4)",
+  "        v3['shift_x'] = v3['shift_x'] + v7[0][0]",
+  "        v3['shift_y'] = v3['shift_y'] + v7[0][1]",
+  "        v3['shift_z'] = v3['shift_z'] + v7[0][2]",
+  "        return v3",
+  "    if v2:",
+  "        self.df = self.df.apply(v0, axis=1).reset_index(drop=True)",
+  "    else:",
+  "        v8 = copy.deepcopy(self)",
+  "        v8.df = v8.df.apply(v0, axis=1).reset_index(drop=True)",
+  "        return v8"] := rfl
+
+/-- `apply_rotation`: the whole body (local names normalised to v0, v1, …) -/
+theorem rotate_body_documented : Gen.C05.rotateBody = [
+  "def apply_rotation(self, v0):",
+  "    if not isinstance(v0, rot):",
+  "        raise ValueError('rotation must be an instance of scipy.spatial.transform.Rotation')",
+  "    v1 = self.df.loc[:, ['phi', 'theta', 'psi']].to_numpy()",
+  "    v2 = rot.from_euler('zxz', v1, degrees=True)",
+  "    v3 = v2 * v0",
+  "    v1 = v3.as_euler('zxz', degrees=True)",
+  "    self.df.loc[:, ['phi', 'theta', 'psi']] = v1"] := rfl
+
+/-- `flip_handedness`: the whole body — theta, then per branch mirror plane, z and shift_z (local names normalised to v0, v1, …) -/
+theorem flip_body_documented : Gen.C05.flipBody = [
+  "def flip_handedness(self, v0=None):",
+  "    self.df.loc[:, 'theta'] = -self.df.loc[:, 'theta']",
+  "    if v0 is not None:",
+  "        v1 = ioutils.dimensions_load(v0)",
+  "        if v1.shape == (1, 3):",
+  "            v2 = float(v1['z'].iloc[0]) + 1",
+  "            self.df.loc[:, 'z'] = v2 - self.df.loc[:, 'z']",
+  "            self.df.loc[:, 'shift_z'] = -self.df.loc[:, 'shift_z']",
+  "        else:",
+  "            v3 = v1['tomo_id'].unique()",
+  "            for v4 in v3:",
+  "                v2 = float(v1.loc[v1['tomo_id'] == v4, 'z'].iloc[0]) + 1",
+  "                self.df.loc[self.df['tomo_id'] == v4, 'z'] = v2 - self.df.loc[self.df['tomo_id'] == v4, 'z']",
+  "                self.df.loc[self.df['tomo_id'] == v4, 'shift_z'] = -self.df.loc[self.df['tomo_id'] == v4, 'shift_z']"] := rfl
+
+/-- `ioutils.dimensions_load`: every input form (DataFrame as is, .com, text file, list, ndarray) and the column naming (local names normalised to v0, v1, …) -/
+theorem dimensions_load_body_documented : Gen.C05.dimensionsLoadBody = [
+  "def dimensions_load(v0, v1=None):",
+  "    if isinstance(v0, pd.DataFrame):",
+  "        v2 = v0",
+  "    elif isinstance(v0, str):",
+  "        if v0.endswith('.com'):",
+  "            v5 = imod_com_read(v0)",
+  "            v2 = np.zeros((1, 3))",
+  "            v2[0, 0:2] = v5['FULLIMAGE']",
+  "            v2[0, 2] = v5['THICKNESS'][0]",
+  "            v2 = pd.DataFrame(v2)",
+  "        elif os.path.isfile(v0):",
+  "            v2 = pd.read_csv(v0, sep='\\\\s+', header=None, dtype=float)",
+  "        else:",
+  "            raise ValueError(f'The file at the path {v0} does not exist.')",
+  "    elif isinstance(v0, list):",
+  "        v2 = pd.DataFrame(np.reshape(np.asarray(v0), (1, len(v0))))",
+  "    else:",
+  "        if v0.ndim == 1:",
+  "            v0 = np.reshape(v0, (1, v0.shape[0]))",
+  "        v2 = pd.DataFrame(v0)",
+  "    if v2.shape == (1, 3):",
+  "        v2.columns = ['x', 'y', 'z']",
+  "    elif v2.shape[1] == 4:",
+  "        v2.columns = ['tomo_id', 'x', 'y', 'z']",
+  "    else:",
+  "        raise ValueError(f'The dimensions should have shape of 1x3 or Nx4, where N is number of tomograms.Instead following shape was extracted from the prvoided files: {v2.shape}.')",
+  "    if v1 is not None:",
+  "        v3 = tlt_load(v1).astype(int)",
+  "        if 'tomo_id' not in v2.columns:",
+  "            v4 = np.repeat(v2[['x', 'y', 'z']].values, len(v3), axis=0)",
+  "            v2 = pd.DataFrame(v4, columns=['x', 'y', 'z'])",
+  "            v2['tomo_id'] = v3",
+  "    return v2"] := rfl
 
 /-! ### update_coordinates -/
 section ring
@@ -178,33 +328,82 @@ theorem flip_flip (d : Dims α) (p : Particle α) : flipP d (flipP d p) = p := b
     simp only [h] at *
     simp only [neg_neg, e]
 
-/-! ### refinement: every operation, hence every history, acts on the pose as the property says -/
+/-! ### refinement: every operation, hence every history, acts on the pose as the property says
 
-/-- one operation -/
-theorem absPose_applyOpP (hc : CsOdd S) (op : Op α) (p : Particle α) (h : StepOK S op p) :
-    absPose S (applyOpP S op p) = specOp op (absPose S p) := by
+`specOp`/`specRun` are PARTIAL: they are `none` where the statement says nothing (a `flip_handedness`
+call whose dimensions do not cover the particle's tomogram — `covers`). Inside the quantifier the model's
+pose IS what the statement gives; outside it the model still follows the code (`flip_uncovered_pose`),
+which is used by the correspondence run only. -/
+
+/-- the dimension the statement uses is the one the code looks up -/
+theorem specDim_dimOf (d : Dims α) (t dz : α) (h : specDim d t = some dz) : dimOf d t = some dz := by
+  cases d with
+  | none => simp [specDim] at h
+  | single z => simpa [specDim, dimOf] using h
+  | table rows =>
+    simp only [specDim] at h
+    simp only [dimOf]
+    cases hl : rows.lookup t with
+    | none => rw [hl] at h; simp at h
+    | some z =>
+      rw [hl] at h
+      simp only at h
+      split at h
+      · exact h
+      · simp at h
+
+/-- no operation changes the tomogram a particle belongs to -/
+theorem applyOpP_tomo (op : Op α) (p : Particle α) : (applyOpP S op p).tomo_id = p.tomo_id := by
   cases op with
-  | update => exact update_pose S p
+  | flip d => simp only [applyOpP]; unfold flipP; split <;> rfl
+  | _ => rfl
+
+theorem runOpsP_tomo (ops : List (Op α)) (p : Particle α) : (runOpsP S ops p).tomo_id = p.tomo_id := by
+  induction ops generalizing p with
+  | nil => rfl
+  | cons op ops ih => simp only [runOpsP, List.foldl_cons] at *; rw [ih, applyOpP_tomo]
+
+/-- one operation, inside the quantifier -/
+theorem absPose_applyOpP (hc : CsOdd S) (op : Op α) (p : Particle α) (h : StepOK S op p)
+    (hcov : covers op p.tomo_id = true) :
+    specOp op (absPose S p) = some (absPose S (applyOpP S op p)) := by
+  cases op with
+  | update => simp only [specOp, applyOpP, update_pose S p]
   | scale f => simp only [applyOpP, specOp, absPose, scale_pos]; rfl
   | shift v => simp only [applyOpP, specOp, absPose, shift_pos]; rfl
   | rotate q =>
     simp only [applyOpP, specOp, absPose, rotate_orient S q p h]; rfl
   | flip d =>
     have ht : (flipP d p).tomo_id = p.tomo_id := by unfold flipP; split <;> rfl
-    simp only [applyOpP, specOp, absPose, flip_orient S hc, ht]
-    cases hd : dimOf d p.tomo_id with
-    | none => simp only [flip_pos_none d p hd]
-    | some dz => rw [flip_pos d p dz hd]
+    simp only [covers, Option.isSome_iff_exists] at hcov
+    obtain ⟨dz, hdz⟩ := hcov
+    simp only [applyOpP, specOp, absPose, flip_orient S hc, ht, hdz]
+    rw [flip_pos d p dz (specDim_dimOf d _ dz hdz)]
 
-/-- **any history (any length)**, one particle -/
-theorem absPose_runOpsP (hc : CsOdd S) (ops : List (Op α)) (p : Particle α) (h : RunOK S ops p) :
-    absPose S (runOpsP S ops p) = specRun ops (absPose S p) := by
+/-- where the statement is silent it really is: `specOp` is defined exactly on the covered calls -/
+theorem specOp_isSome (op : Op α) (P : Pose α) : (specOp op P).isSome = covers op P.tomo := by
+  cases op with
+  | flip d => simp only [specOp, covers]; cases specDim d P.tomo <;> rfl
+  | _ => rfl
+
+/-- MODEL-ONLY fact (not a clause of the property): for a particle whose tomogram has no row in the table
+(or when no dimensions are given) the code negates theta and leaves the position alone -/
+theorem flip_uncovered_pose (hc : CsOdd S) (d : Dims α) (p : Particle α) (h : dimOf d p.tomo_id = none) :
+    absPose S (flipP d p) = { absPose S p with R := Mz * orient S p * Mz } := by
+  have ht : (flipP d p).tomo_id = p.tomo_id := by unfold flipP; split <;> rfl
+  simp only [absPose, flip_orient S hc, flip_pos_none d p h, ht]
+
+/-- **any history (any length)**, one particle, every call inside the quantifier -/
+theorem absPose_runOpsP (hc : CsOdd S) (ops : List (Op α)) (p : Particle α) (h : RunOK S ops p)
+    (hcov : ∀ op ∈ ops, covers op p.tomo_id = true) :
+    specRun ops (absPose S p) = some (absPose S (runOpsP S ops p)) := by
   induction ops generalizing p with
   | nil => rfl
   | cons op ops ih =>
     obtain ⟨h1, h2⟩ := h
-    simp only [runOpsP, specRun, List.foldl_cons] at *
-    rw [ih (applyOpP S op p) h2, absPose_applyOpP S hc op p h1]
+    have e := absPose_applyOpP S hc op p h1 (hcov op (List.mem_cons_self ..))
+    simp only [specRun, e, runOpsP, List.foldl_cons]
+    exact ih (applyOpP S op p) h2 (fun o ho => by rw [applyOpP_tomo]; exact hcov o (List.mem_cons_of_mem _ ho))
 
 theorem runOps_eq_map (ops : List (Op α)) (m : Motl α) : runOps S ops m = m.map (runOpsP S ops) := by
   induction ops generalizing m with
@@ -215,12 +414,13 @@ theorem runOps_eq_map (ops : List (Op α)) (m : Motl α) : runOps S ops m = m.ma
 
 /-- **any history on any particle list**: the list of poses after the history is the list of poses
 the specification gives, particle by particle and in the same order -/
-theorem absPose_runOps (hc : CsOdd S) (ops : List (Op α)) (m : Motl α) (h : ∀ p ∈ m, RunOK S ops p) :
-    (runOps S ops m).map (absPose S) = m.map (fun p => specRun ops (absPose S p)) := by
+theorem absPose_runOps (hc : CsOdd S) (ops : List (Op α)) (m : Motl α) (h : ∀ p ∈ m, RunOK S ops p)
+    (hcov : ∀ p ∈ m, ∀ op ∈ ops, covers op p.tomo_id = true) :
+    m.map (fun p => specRun ops (absPose S p)) = (runOps S ops m).map (fun p => some (absPose S p)) := by
   rw [runOps_eq_map, List.map_map]
   apply List.map_congr_left
   intro p hp
-  exact absPose_runOpsP S hc ops p (h p hp)
+  exact absPose_runOpsP S hc ops p (h p hp) (hcov p hp)
 
 /-- the orientation of every particle is a proper rotation when cos² + sin² = 1 -/
 theorem orient_isRot (hu : ∀ a, (S.cs a).1 * (S.cs a).1 + (S.cs a).2 * (S.cs a).2 = 1) (p : Particle α) :
@@ -243,9 +443,10 @@ theorem runOK_of_global (hu : ∀ a, (S.cs a).1 * (S.cs a).1 + (S.cs a).2 * (S.c
 
 /-- any history on any list under the global assumptions -/
 theorem absPose_runOps_global (hc : CsOdd S) (hu : ∀ a, (S.cs a).1 * (S.cs a).1 + (S.cs a).2 * (S.cs a).2 = 1)
-    (hE : ∀ m : M3 α, IsRot m → EulerOK S m) (ops : List (Op α)) (hq : ∀ q, Op.rotate q ∈ ops → IsRot q) (m : Motl α) :
-    (runOps S ops m).map (absPose S) = m.map (fun p => specRun ops (absPose S p)) :=
-  absPose_runOps S hc ops m (fun p _ => runOK_of_global S hu hE ops hq p)
+    (hE : ∀ m : M3 α, IsRot m → EulerOK S m) (ops : List (Op α)) (hq : ∀ q, Op.rotate q ∈ ops → IsRot q) (m : Motl α)
+    (hcov : ∀ p ∈ m, ∀ op ∈ ops, covers op p.tomo_id = true) :
+    m.map (fun p => specRun ops (absPose S p)) = (runOps S ops m).map (fun p => some (absPose S p)) :=
+  absPose_runOps S hc ops m (fun p _ => runOK_of_global S hu hE ops hq p) hcov
 
 /-- rigidity: `shift_positions(s)` displaces every particle by a vector of the same length as s -/
 theorem shift_rigid (hu : ∀ a, (S.cs a).1 * (S.cs a).1 + (S.cs a).2 * (S.cs a).2 = 1) (v : V3 α) (p : Particle α) :
@@ -287,25 +488,30 @@ theorem update_list (m : Motl α) :
 /-! ### the composition clauses at the level of the statement itself -/
 
 theorem spec_shift_shift (v₁ v₂ : V3 α) (P : Pose α) :
-    specOp (.shift v₂) (specOp (.shift v₁) P) = specOp (.shift (v₁ + v₂)) P := by
-  simp only [specOp, M3.apply_add]
-  congr 1
+    (specOp (.shift v₁) P).bind (specOp (.shift v₂)) = specOp (.shift (v₁ + v₂)) P := by
+  simp only [specOp, Option.bind_some, M3.apply_add]
+  congr 2
   ext <;> simp only [V3.add_def, V3.add] <;> ring
 
 theorem spec_rotate_rotate (q₁ q₂ : M3 α) (P : Pose α) :
-    specOp (.rotate q₂) (specOp (.rotate q₁) P) = specOp (.rotate (q₁ * q₂)) P := by
-  simp only [specOp, M3.mul_assoc']
+    (specOp (.rotate q₁) P).bind (specOp (.rotate q₂)) = specOp (.rotate (q₁ * q₂)) P := by
+  simp only [specOp, Option.bind_some, M3.mul_assoc']
 
-theorem spec_flip_flip (d : Dims α) (P : Pose α) : specOp (.flip d) (specOp (.flip d) P) = P := by
+/-- where the statement speaks about the first flip it speaks about the second, and the two restore the pose -/
+theorem spec_flip_flip (d : Dims α) (P P' : Pose α) (h : specOp (.flip d) P = some P') : specOp (.flip d) P' = some P := by
   have hR : ∀ R : M3 α, Mz * (Mz * R * Mz) * Mz = R := by
     intro R
     calc Mz * (Mz * R * Mz) * Mz = (Mz * Mz) * R * (Mz * Mz) := by simp only [M3.mul_assoc']
       _ = R := by rw [Mz_Mz, M3.one_mul', M3.mul_one']
-  cases h : dimOf d P.tomo with
-  | none => simp only [specOp, h, hR]
+  simp only [specOp] at h
+  cases hd : specDim d P.tomo with
+  | none => rw [hd] at h; simp at h
   | some dz =>
+    rw [hd] at h
+    simp only [Option.some.injEq] at h
+    subst h
     have e : ∀ z : α, dz + 1 - (dz + 1 - z) = z := by intro z; ring
-    simp only [specOp, h, hR, e]
+    simp only [specOp, hd, hR, e]
 
 end ring2
 
@@ -333,23 +539,91 @@ theorem checkScale_sound (f : Rat) (b a : Particle Rat) (h : checkScale f b a = 
     pos a = V3.smul f (pos b) := by
   simpa [checkScale] using h
 
-/-- an accepted output of `flip_handedness` has the mirrored pose under every admissible cos/sin -/
-theorem checkFlip_sound (S : Svc Rat) (hc : CsOdd S) (d : Dims Rat) (b a : Particle Rat) (h : checkFlip d b a = true) :
-    absPose S a = specOp (.flip d) (absPose S b) := by
-  simp only [checkFlip, Bool.and_eq_true, beq_iff_eq] at h
-  obtain ⟨⟨⟨⟨ht, hphi⟩, hpsi⟩, htomo⟩, hpos⟩ := h
-  have ho : orient S a = Mz * orient S b * Mz := by
-    simp only [orient, ht, hphi, hpsi, hc b.theta, Mz_zxz]
-  simp only [absPose, specOp, ho, htomo]
-  cases hd : dimOf d b.tomo_id with
-  | none =>
-    rw [hd] at hpos
-    simp only [beq_iff_eq] at hpos
-    simp only [hpos]
+/-- an accepted output of `flip_handedness` has, for every particle the dimensions cover, the mirrored
+pose under every admissible cos/sin (and nothing is claimed for the others) -/
+theorem checkFlip_sound (S : Svc Rat) (hc : CsOdd S) (d : Dims Rat) (b a : Particle Rat) (h : checkFlip d b a = true)
+    (P' : Pose Rat) (hs : specOp (.flip d) (absPose S b) = some P') : absPose S a = P' := by
+  simp only [specOp, absPose] at hs
+  simp only [checkFlip, checkFlipPos] at h
+  cases hd : specDim d b.tomo_id with
+  | none => rw [hd] at hs; simp at hs
   | some dz =>
-    rw [hd] at hpos
-    simp only [beq_iff_eq] at hpos
-    simp only [hpos]
+    rw [hd] at hs h
+    simp only [Bool.and_eq_true, beq_iff_eq] at h
+    obtain ⟨⟨⟨ht, hphi⟩, hpsi⟩, htomo, hpos⟩ := h
+    have ho : orient S a = Mz * orient S b * Mz := by
+      simp only [orient, ht, hphi, hpsi, hc b.theta, Mz_zxz]
+    simp only [Option.some.injEq] at hs
+    rw [← hs]
+    simp only [absPose, ho, htomo, hpos]
+
+/-- the position clause alone: an accepted output has the mirrored complete position for every covered particle -/
+theorem checkFlipPos_sound (d : Dims Rat) (b a : Particle Rat) (h : checkFlipPos d b a = true)
+    (dz : Rat) (hd : specDim d b.tomo_id = some dz) :
+    pos a = ⟨(pos b).x, (pos b).y, dz + 1 - (pos b).z⟩ ∧ a.tomo_id = b.tomo_id := by
+  simp only [checkFlipPos, hd, Bool.and_eq_true, beq_iff_eq] at h
+  exact ⟨h.2, h.1⟩
+
+/-- the model's own output passes both flip checkers (they are not vacuous) -/
+theorem checkFlip_complete (d : Dims Rat) (p : Particle Rat) :
+    checkFlip d p (flipP d p) = true ∧ checkFlipPos d p (flipP d p) = true := by
+  have ht : (flipP d p).tomo_id = p.tomo_id := by unfold flipP; split <;> rfl
+  have hp : ∀ dz, specDim d p.tomo_id = some dz → checkFlipPos d p (flipP d p) = true := by
+    intro dz hd
+    simp only [checkFlipPos, hd, Bool.and_eq_true, beq_iff_eq]
+    exact ⟨ht, flip_pos d p dz (specDim_dimOf d _ dz hd)⟩
+  cases hd : specDim d p.tomo_id with
+  | none => simp only [checkFlip, checkFlipPos, hd, and_self]
+  | some dz =>
+    refine ⟨?_, hp dz hd⟩
+    simp only [checkFlip, hd, hp dz hd, Bool.and_true, Bool.and_eq_true, beq_iff_eq]
+    unfold flipP; split <;> exact ⟨⟨rfl, rfl⟩, rfl⟩
+
+/-! ### the global scipy assumptions are satisfiable: true cosine/sine, Euler extraction and rounding over ℝ
+
+`absPose_runOps_global` assumes `CsOdd`, cos² + sin² = 1 and `EulerOK` for EVERY proper rotation. Over `Rat`
+no service can meet the last one (cos and sin of most angles are irrational); over ℝ `realSvc`
+(`Lemmas/C05_Euler`: cos/sin of degrees, an explicit zxz extraction via `sqrt` and `Complex.arg`, rounding
+half away from zero via the floor) meets all of them, so the theorem is not vacuous and becomes hypothesis-free. -/
+
+/-- **every proper rotation has zxz Euler angles**, purely algebraically: in any ordered field in which
+`1 − m₃₃²` has a square root there are three points of the unit circle (the middle one with sine ≥ 0, i.e.
+theta in [0°, 180°]) whose `zxz` is the matrix — gimbal lock included (`Lemmas/C05_Euler`) -/
+theorem zxz_angles_exist {α : Type} [_root_.Field α] [LinearOrder α] [IsStrictOrderedRing α] (m : M3 α) (h : IsRot m)
+    (hsq : ∃ s : α, 0 ≤ s ∧ s * s = 1 - m.a33 * m.a33) :
+    ∃ cp sp ct st cs ss : α, cp * cp + sp * sp = 1 ∧ ct * ct + st * st = 1 ∧ cs * cs + ss * ss = 1 ∧ 0 ≤ st ∧
+      zxz cp sp ct st cs ss = m :=
+  exists_zxz_of_rot h hsq
+
+/-- every proper rotation matrix is the zxz matrix of some Euler angles (degrees) -/
+theorem euler_angles_exist (m : M3 ℝ) (h : IsRot m) : ∃ e : ℝ × ℝ × ℝ, eulerMat realSvc e = m :=
+  ⟨realSvc.euler m, realSvc_eulerOK m h⟩
+
+/-- all service hypotheses used anywhere in this file hold for `realSvc` -/
+theorem realSvc_meets_all :
+    CsOdd realSvc ∧ (∀ a, (realSvc.cs a).1 * (realSvc.cs a).1 + (realSvc.cs a).2 * (realSvc.cs a).2 = 1) ∧
+    (∀ m : M3 ℝ, IsRot m → EulerOK realSvc m) ∧ (∀ v : ℝ, |v - ((realSvc.rnd v : Int) : ℝ)| ≤ 1 / 2) :=
+  ⟨realSvc_csOdd, realSvc_unit, realSvc_eulerOK, rndR_close⟩
+
+/-- **any history on any particle list, over ℝ, without any assumption on the services**: if the
+`apply_rotation` arguments are proper rotations and every `flip_handedness` call covers the list's
+tomograms, the poses after the history are exactly what the statement gives -/
+theorem absPose_runOps_real (ops : List (Op ℝ)) (hq : ∀ q, Op.rotate q ∈ ops → IsRot q) (m : Motl ℝ)
+    (hcov : ∀ p ∈ m, ∀ op ∈ ops, covers op p.tomo_id = true) :
+    m.map (fun p => specRun ops (absPose realSvc p)) = (runOps realSvc ops m).map (fun p => some (absPose realSvc p)) :=
+  absPose_runOps_global realSvc realSvc_csOdd realSvc_unit realSvc_eulerOK ops hq m hcov
+
+/-- `update_coordinates` over ℝ with true rounding: position kept, integers, |shift| ≤ 1/2 -/
+theorem update_spec_real (p : Particle ℝ) :
+    pos (updateP realSvc p) = pos p ∧
+    (∃ i j k : Int, (updateP realSvc p).x = (i : ℝ) ∧ (updateP realSvc p).y = (j : ℝ) ∧ (updateP realSvc p).z = (k : ℝ)) ∧
+    |(updateP realSvc p).shift_x| ≤ 1 / 2 ∧ |(updateP realSvc p).shift_y| ≤ 1 / 2 ∧ |(updateP realSvc p).shift_z| ≤ 1 / 2 :=
+  ⟨update_pos realSvc p, update_integral realSvc p, update_shift_le_half realSvc rndR_close p⟩
+
+/-- Q₁ then Q₂ = Q₁·Q₂ over ℝ for all proper rotations and all particles, no side condition left -/
+theorem rotate_rotate_real (q₁ q₂ : M3 ℝ) (h₁ : IsRot q₁) (p : Particle ℝ) :
+    rotateP realSvc q₂ (rotateP realSvc q₁ p) = rotateP realSvc (q₁ * q₂) p :=
+  rotate_rotate realSvc q₁ q₂ p (realSvc_eulerOK _ ((orient_isRot realSvc realSvc_unit p).mul h₁))
 
 /-! ### non-vacuity: concrete services and inputs meeting every hypothesis above -/
 
@@ -377,6 +651,13 @@ example : EulerOK exS (orient exS exP * rz 0 1) := by unfold EulerOK; decide +ke
 example : RunOK exS [.rotate (rz 0 1), .update, .scale 2, .shift ⟨1, 2, 3⟩, .flip (.table [(1, 50), (2, 60)]), .flip (.single 40)] exP := by
   refine ⟨?_, trivial, trivial, trivial, trivial, trivial, trivial⟩
   unfold StepOK EulerOK; decide +kernel
+/-- … every call of which is inside the quantifier for the particle (its tomogram 2 has a row / a single triple is given) -/
+example : ∀ op ∈ ([.rotate (rz 0 1), .update, .scale 2, .shift ⟨1, 2, 3⟩, .flip (.table [(1, 50), (2, 60)]), .flip (.single 40)] : List (Op Rat)),
+    covers op exP.tomo_id = true := by decide +kernel
+/-- the statement folded over that history is defined and is the model's pose (instance of `absPose_runOpsP`) -/
+example : specRun [.rotate (rz 0 1), .update, .scale 2, .shift ⟨1, 2, 3⟩, .flip (.table [(1, 50), (2, 60)]), .flip (.single 40)] (absPose exS exP)
+    = some (absPose exS (runOpsP exS [.rotate (rz 0 1), .update, .scale 2, .shift ⟨1, 2, 3⟩, .flip (.table [(1, 50), (2, 60)]), .flip (.single 40)] exP)) := by
+  decide +kernel
 example : exS.rnd = roundHalfUp := rfl
 /-- ties in both directions: 5 + 1/2 ↦ 6, −7 − 5/2 = −19/2 ↦ −10 -/
 example : (updateP exS exP).x = 6 ∧ (updateP exS exP).y = -10 ∧ (updateP exS exP).shift_x = -1/2 ∧ (updateP exS exP).shift_y = 1/2 := by
@@ -387,4 +668,25 @@ example : checkFlip (.single 40) exP (flipP (.single 40) exP) = true := by decid
 /-- the rotated example particle really has the orientation R·Q -/
 example : orient exS (rotateP exS (rz 0 1) exP) = orient exS exP * rz 0 1 := by decide +kernel
 
+/-- the hypotheses of `absPose_runOps_real` are met by a history with a genuine rotation, a covered
+per-tomogram flip and every other kind of operation on a two-tomogram list -/
+example : (∀ q, Op.rotate q ∈ ([.rotate (rz 0 1), .update, .scale 2, .shift ⟨1, 2, 3⟩, .flip (.table [(1, 50), (2, 60)])] : List (Op ℝ)) → IsRot q) ∧
+    (∀ t ∈ [(1 : ℝ), 2], covers (.flip (.table [(1, 50), (2, 60)]) : Op ℝ) t = true) := by
+  refine ⟨?_, ?_⟩
+  · intro q hq
+    simp only [List.mem_cons, Op.rotate.injEq, reduceCtorEq, List.not_mem_nil, or_false] at hq
+    subst hq
+    exact ⟨rz_orth 0 1 (by norm_num), by rw [det_rz]; norm_num⟩
+  · intro t ht
+    simp only [List.mem_cons, List.not_mem_nil, or_false] at ht
+    rcases ht with rfl | rfl
+    · norm_num [covers, specDim, List.lookup]
+    · have h21 : ((2 : ℝ) == 1) = false := by rw [beq_eq_false_iff_ne]; norm_num
+      simp [covers, specDim, List.lookup, h21]
+/-- outside the quantifier the specification is silent: a table without the particle's tomogram, and one
+with two different z sizes for it -/
+example : specOp (.flip (.table [(1, 50)])) (absPose exS exP) = none ∧
+    specOp (.flip (.table [(2, 50), (2, 60)])) (absPose exS exP) = none ∧
+    (specOp (.flip (.table [(2, 60), (1, 50), (2, 60)])) (absPose exS exP)).isSome = true := by decide +kernel
+example : checkFlipPos (.table [(1, 50), (2, 60)]) exP (flipP (.table [(1, 50), (2, 60)]) exP) = true := by decide +kernel
 end CryoCat.C05
